@@ -231,7 +231,11 @@ impl<M: ConvexCellMarker> Iterator for ConvexCellDecomposition<'_, M> {
     }
 }
 
-pub(crate) trait ConvexCellMarker: Clone + Send + Sync + Default {}
+/// Marker trait for the two states of a [`ConvexCell`] ([`WithFaces`] or [`WithoutFaces`]).
+///
+/// It appears as a bound in the signatures of the integral traits, so it must be
+/// nameable by downstream crates that implement their own integrals.
+pub trait ConvexCellMarker: Clone + Send + Sync + Default {}
 
 #[derive(Copy, Clone, Default)]
 pub struct WithoutFaces;
